@@ -527,6 +527,29 @@ struct InitProbe {
 	explicit InitProbe(int x) : how(3), a(x), b(0) {}
 	bool operator==(const InitProbe &o) const { return how == o.how && a == o.a && b == o.b; }
 };
+// ---- a manual_box with static storage duration, first used while other namespace-scope objects are still being constructed
+// (what manual_box is for: a global service object that is set up by hand). Its default constructor is constexpr, so like
+// std::optional it is constant-initialised: an initialize() issued from the constructor of an *earlier* global must stick.
+struct EarlyPayload { int v; long pad[3]; explicit EarlyPayload(int x) : v(x), pad{x, x + 1, x + 2} {} };
+extern frg::manual_box<EarlyPayload> g_early_box;
+extern std::optional<EarlyPayload> g_early_ref;
+extern frg::manual_box<long> g_early_box_l;
+extern std::optional<long> g_early_ref_l;
+static struct EarlyUser { EarlyUser() { g_early_box.initialize(41); g_early_ref.emplace(41); g_early_box_l.initialize(-7); g_early_ref_l.emplace(-7); } } g_early_user;
+frg::manual_box<EarlyPayload> g_early_box;
+std::optional<EarlyPayload> g_early_ref;
+frg::manual_box<long> g_early_box_l;
+std::optional<long> g_early_ref_l;
+static void static_init_case() {
+	if(g_early_box.valid() != g_early_ref.has_value())
+		return fail17("manual_box-static-init", strf("a namespace-scope manual_box initialised from the constructor of an earlier global reports valid()=%d in main (std::optional used the same way: %d)", (int)g_early_box.valid(), (int)g_early_ref.has_value()));
+	if(g_early_box_l.valid() != g_early_ref_l.has_value())
+		return fail17("manual_box-static-init", "a namespace-scope manual_box<long> initialised from the constructor of an earlier global lost its state");
+	if(g_early_box->v != g_early_ref->v || g_early_box->pad[2] != g_early_ref->pad[2] || *g_early_box_l != *g_early_ref_l)
+		return fail17("manual_box-static-init", "a namespace-scope manual_box initialised from the constructor of an earlier global holds another value in main");
+	count("manual_boxes_initialised_during_static_initialisation_and_read_in_main", 2);
+}
+
 static void init_form_case(Rng &r) {
 	int x = (int)r.below(1000), y = (int)r.below(1000);
 	auto diff = [&](const char *what, const InitProbe &f, const InitProbe &s) {
@@ -599,6 +622,7 @@ int main(int argc, char **argv) {
 	seq_run_type<BoxAdapter>("manual_box<Elem>", t ? 8 : 6, scaled(200, 5000), 50, g_prop);
 	seq_run_type<UPtrAdapter>("unique_ptr<Elem>", t ? 6 : 5, scaled(300, 10000), 50, g_prop);
 	seq_run_type<UMemAdapter>("unique_memory", t ? 7 : 6, scaled(200, 5000), 50, g_prop);
+	if(want_mode("static-init") && want_case(0)) { begin_case("static-init", 0); guarded(g_prop.c_str(), [&] { static_init_case(); }); note_distinct(mix(79, 1)); }
 	if(want_mode("sticky")) {
 		Rng r(derive_seed("sticky"));
 		uint64_t n = scaled(20000, 1000000);
